@@ -5,7 +5,7 @@ import re
 from .. import emit2
 from ..emit2 import Rec, Nested, GenCFG
 from ..pycfg import walk_no_nested
-from ..source import AnalysisError, find_function, find_class, first_line, src, functions
+from ..source import conjuncts, AnalysisError, find_function, find_class, first_line, src, functions
 
 EXP = "nemoguardrails/colang/v2_x/lang/expansion.py"
 SM = "nemoguardrails/colang/v2_x/runtime/statemachine.py"
@@ -375,7 +375,7 @@ def c_exhaustive(ctx):
     for cls in ("If", "When"):
         forced = False
         for n in ast.walk(ee):
-            if isinstance(n, ast.If) and isinstance(n.test, ast.Call) and src(n.test.func) == "isinstance" and src(n.test.args[1]) == cls:
+            if isinstance(n, ast.If) and any(isinstance(c, ast.Call) and src(c.func) == "isinstance" and len(c.args) == 2 and src(c.args[1]) == cls for c in conjuncts(n.test)):
                 forced = any(isinstance(s, ast.Assign) and src(s.targets[0]) == "elements_changed" and src(s.value) == "True" for s in n.body)
         ctx.check("C12.c.break-continue", EXP, "expand_elements", "re-expansion after %s" % cls, forced,
                   "after expanding %s the fixpoint is forced to run again, so Break/Continue inside it receive the loop's labels" % cls, line=ee.lineno)
@@ -386,10 +386,12 @@ def c_exhaustive(ctx):
               line=_first_line_of("_expand_while_stmt_element", mod))
     fills = 0
     for n in ast.walk(ee):
-        if isinstance(n, ast.If) and isinstance(n.test, ast.Call) and src(n.test.func) == "isinstance" and src(n.test.args[1]) in ("Continue", "Break"):
-            idx = 0 if src(n.test.args[1]) == "Continue" else 1
+        inst = [c for c in conjuncts(n.test) if isinstance(c, ast.Call) and src(c.func) == "isinstance" and len(c.args) == 2 and src(c.args[1]) in ("Continue", "Break")] \
+            if isinstance(n, ast.If) else []
+        if inst:
+            cls = src(inst[0].args[1])
+            idx = 0 if cls == "Continue" else 1
             want = "continue_break_labels[%d]" % idx
-            cls = src(n.test.args[1])
             for a in [a for s in n.body for a in ast.walk(s)]:
                 if isinstance(a, ast.Assign) and isinstance(a.targets[0], ast.Attribute) and a.targets[0].attr == "label" and src(a.value) == want:
                     fills += 1
@@ -548,10 +550,17 @@ def d_label_tables(ctx):
         body_ok = False
         for i in l.body:
             if isinstance(i, ast.If) and re.sub(r"\s", "", src(i.test)) == "isinstance(%s,Label)" % ev and not i.orelse:
-                for c in ast.walk(i):
-                    if isinstance(c, ast.Call) and src(c.func) == "flow_config.element_labels.update" and isinstance(c.args[0], ast.Dict) and \
-                            re.sub(r"\s", "", src(c.args[0].keys[0])) in ('%s["name"]' % ev, "%s['name']" % ev, "%s.name" % ev) and src(c.args[0].values[0]) == iv:
-                        body_ok = True
+                for st_ in i.body:
+                    # any spelling of the store: element_labels[<name>] = <index> / .update({<name>: <index>})
+                    for a_ in ast.walk(st_):
+                        pairs = []
+                        if isinstance(a_, ast.Assign) and isinstance(a_.targets[0], ast.Subscript) and src(a_.targets[0].value) == "flow_config.element_labels":
+                            pairs.append((a_.targets[0].slice, a_.value))
+                        if isinstance(a_, ast.Call) and src(a_.func) == "flow_config.element_labels.update" and a_.args and isinstance(a_.args[0], ast.Dict):
+                            pairs += list(zip(a_.args[0].keys, a_.args[0].values))
+                        for k_, v_ in pairs:
+                            if k_ is not None and re.sub(r"\s", "", src(k_)) in ('%s["name"]' % ev, "%s['name']" % ev, "%s.name" % ev) and src(v_) == iv:
+                                body_ok = True
         # no statement in the loop can skip a Label (continue/break before the store)
         skips = [x for x in ast.walk(l) if isinstance(x, (ast.Break, ast.Continue, ast.Return))]
         ok = body_ok and not skips
